@@ -9,7 +9,7 @@ from nacl.signing import SigningKey
 from ..core import Result, Ctx
 from .. import vmrun
 from ..builders import Bench, try_build, hexof, replay_scripts
-from ..gen import values as V
+from ..gen import values as V, programs as G
 
 RULE = ("root / delegate seeds x chains of length 1..6 (quick: 1..4) x (begin, end) windows with t in {begin-1, begin, end-1, end} and t - now in {59, 60, 61} x all may-delegate "
         "patterns x flags: accepted exactly when every cert is signed by the previous key (first by the root), t is in every window and within the clock slack, every non-final cert "
@@ -49,6 +49,7 @@ def run(ctx: Ctx) -> Result:
         n = rng.randrange(1, maxlen + 1)
         seeds = [V.rbytes(rng, 32) for _ in range(n)]; pks = [bytes(SigningKey(s).verify_key) for s in seeds]
         begin, end = now - rng.choice([0, 10, 1000]), now + rng.choice([1, 10, 1000])
+        if it % 6 == 5: begin = 0                     # a window that begins at the epoch
         patterns = list(itertools.product([True, False], repeat=n)) if n <= 3 else [tuple(rng.random() < .8 for _ in range(n)) for _ in range(4)] + [tuple([True] * n)]
         for mays in patterns:
             signers = [root] + seeds[:-1]
@@ -84,7 +85,7 @@ def run(ctx: Ctx) -> Result:
             c = certs[i]; d = dict(delegate_pubkey=c.delegate_pubkey, begin_ts=c.begin_ts, end_ts=c.end_ts, can_further_delegate=c.can_further_delegate, signature=c.signature); d.update(kw)
             cs = list(certs); cs[i] = T.Certificate(**d); return cs
         chain_ok(mutated(i, delegate_pubkey=bytes(SigningKey(V.rbytes(rng, 32)).verify_key)), seeds[-1], f'cert {i}: delegate key replaced (signature not re-made)')
-        chain_ok(mutated(i, begin_ts=certs[i].begin_ts - 1), seeds[-1], f'cert {i}: begin changed (signature not re-made)')
+        chain_ok(mutated(i, begin_ts=certs[i].begin_ts - 1 if certs[i].begin_ts > 0 else 1), seeds[-1], f'cert {i}: begin changed (signature not re-made)')
         chain_ok(mutated(i, end_ts=certs[i].end_ts + 1), seeds[-1], f'cert {i}: end changed (signature not re-made)')
         if n > 1: chain_ok(mutated(0, can_further_delegate=False), seeds[-1], 'cert 0: may-delegate cleared (signature not re-made)')
         sg = bytearray(certs[i].signature); sg[rng.randrange(64)] ^= 1 << rng.randrange(8)
@@ -133,6 +134,20 @@ def run(ctx: Ctx) -> Result:
             if w1bad is not None:
                 ok, v = B.auth([w1bad.bytes, lock1.bytes], cache)
                 if ok: B.viol(f'delegate-key lock with flags {flags} accepts a final signature flagged {wf}', {'root_seed': root.hex(), 'scripts': [w1bad.bytes.hex(), lock1.bytes.hex()], 'cache': vmrun.cache_str(cache, False)}, False, v)
+        # a terminal certificate in the middle, with hand-made continuation markers of several bytes: AND zero-pads, so a marker
+        # cannot make a cleared may-delegate byte true
+        if n >= 2:
+            term_ = [T.make_delegate_key_cert(([root] + seeds[:-1])[j], pks[j], begin, end, j != 0) for j in range(n)]
+            fsig = T.make_single_sig_witness(seeds[-1], sf, flags).bytes
+            for marker in (b'\x00\xff', b'\xff\xff', b'\x01\x01', b'\x00\x01', b'\xff', b'\x00\x00\x01'):
+                wb = fsig + bytes([0])                                   # push sig, false
+                packed = [c.pack() for c in reversed(term_)]
+                for j, pc in enumerate(packed):
+                    wb += G.push(pc)
+                    if j < len(packed) - 1: wb += G.push(marker)
+                res.note_case((root, tuple(seeds), 'multi-byte-marker', marker))
+                ok, v = B.auth([wb, lockc.bytes], cache)
+                if ok: B.viol(f'chain with a non-delegable first certificate accepted with continuation marker {marker.hex()}', {'root_seed': root.hex(), 'chain_length': n, 'scripts': [wb.hex(), lockc.bytes.hex()], 'cache': vmrun.cache_str(cache, False)}, False, v)
         # terminal cert holder tries to delegate further
         if n >= 2:
             term = [T.make_delegate_key_cert(([root] + seeds[:-1])[j], pks[j], begin, end, j != 0) for j in range(n)]
